@@ -234,6 +234,8 @@ type Engine struct {
 	// Aux is an extra phase run by the driver after the search (returns VIOLATION lines and evidence notes).
 	Aux       func(d *driver) ([]string, map[string]interface{})
 	AuxReplay func(d *driver, rf *replayFile, path string) int
+	// Custom replaces the seeded search altogether (C20: enumeration of a fixed catalogue).
+	Custom func(d *driver) int
 	// Probes: named hand-written scenarios for known findings (stable against generator changes)
 }
 
